@@ -388,6 +388,14 @@ func (m *ldbManager) Pop() error {
 		return err
 	}
 
+	// cached undo overlays were accumulated from the branch which is being abandoned
+	m.changes.Lock()
+	defer m.changes.Unlock()
+	if !m.stopped {
+		m.l1Cache.Purge()
+		m.l2Cache.Purge()
+	}
+
 	return nil
 }
 func (m *ldbManager) Stop() error {
